@@ -102,8 +102,8 @@ impl Property for C12 {
     fn runs(&self, tier: Tier) -> u64 {
         // (format 11) x (variant) x (3 states) x shards
         let v = match tier {
-            Tier::Quick => 2,
-            Tier::Thorough => 12,
+            Tier::Quick => 6,
+            Tier::Thorough => 300,
         };
         11 * v * 3 * SHARDS
     }
